@@ -1165,7 +1165,9 @@ impl AsBytes for f64 {
 }
 impl AsBytes for char {
     fn as_bytes<'a, E>(&self, writer: &mut CdrWriter<'a>) {
-        writer.write_slice(self.to_string().as_bytes());
+        // A Char8 is one byte on the wire (its size is 1 and the deserializer reads one byte): the
+        // Latin-1 code point, not the UTF-8 encoding which takes two bytes above 0x7f
+        writer.write_slice(&[*self as u32 as u8]);
     }
 }
 
